@@ -21,6 +21,8 @@ def gen_program(rng):
         "shutdown_after": rng.choice([None, 0, 0, 1]),  # None: free-running; k: after spawner 0 got k replies
         "waiters": rng.randint(0, 2),
         "waiter_timeout": rng.choice([None, None, 5.0]),
+        # per-caller time-outs (a short one expires while tasks still run: its bookkeeping must not disturb the others)
+        "waiter_timeouts": [rng.choice([None, None, 5.0, 0.004]) for _ in range(2)],
         "task_yields": rng.random() < 0.5,
         "failing_task": rng.random() < 0.3,
     }
@@ -76,7 +78,8 @@ def run_program(prog, chooser, line_budget):
 
     def waiter(wi):
         snap = list(accepted)
-        res = pool.waitall(prog["waiter_timeout"])
+        tmo = (prog.get("waiter_timeouts") or [prog["waiter_timeout"]] * 2)[wi % 2]
+        res = pool.waitall(tmo)
         waitres.append({"snap": snap, "res": res, "unfinished_at_return": [t for t in snap if not done(t)], "clock": sc.clock})
 
     def done(t):
